@@ -11,7 +11,7 @@ import fc_env
 import hostprogs
 
 ID = 'C01'
-EXTRACT = ['guards']
+EXTRACT = ['guards', 'o8_hosttouch']
 LEAN_TARGETS = ['DeepModel.Props.C01']
 AUDIT = 'DeepModel/Audit/C01.lean'
 DRIVER = 'DeepModel/Driver/C01.lean'
@@ -35,7 +35,10 @@ TRUSTED = ['harness/skeleton.py: every call expression of a function body is lis
            'faultinj: a fault is raised at the call boundary of the wrapped callee (the callee body does not run)']
 ASSUMPTIONS = ['expressions in tracepoints are side-effect free (the property quantifies over such)',
                'asynchronous exceptions (signals) inside the handler are out of scope',
-               'non-interference of the agent\'s reads with host state is exercised by the differential oracle, not proved']
+               'non-interference of the agent\'s reads with host state is exercised by the differential oracle (incl. the live '
+               'namespaces of module-body and class-body frames, host program modbody); proved is only the frame condition over the '
+               'extracted table of host-touching operations (no store/delete/mutation of a host-aliased value; reads within the '
+               'side-effect-free protocols) — the taint analysis of harness/extract/o8_hosttouch.py is trusted']
 
 _G = {}
 ADDR = __import__('re').compile(r'0x[0-9a-fA-F]+')      # object addresses in reprs differ between runs
@@ -84,7 +87,8 @@ FUNCS = {'calls': ['leaf', 'mid'], 'recursion': ['fact', 'fib'], 'exceptions': [
          'generators': ['squares', '__next__'], 'threads': ['work'], 'dunders': ['touch'], 'seeded_random': ['draw'],
          'finalizers': ['use'], 'finalizers_nogc': ['use'], 'classes': ['deposit', 'fee', 'inc'], 'data': ['build', 'mutate'], 'loops': ['scan'],
          'ghost': ['handle', 'helper'], 'tracking_dicts': ['configure'], 'owned_exception': ['parse'],
-         'one_shot': ['prepare', 'gen'], 'del_order': ['main'], 'closure_threads': ['audit', 'deposit']}
+         'one_shot': ['prepare', 'gen'], 'del_order': ['main'], 'closure_threads': ['audit', 'deposit'],
+         'modbody': ['helper', 'size', '<module>', 'Shelf']}
 
 
 def random_tp(rng, prog, idx):
@@ -172,6 +176,18 @@ def corpus():
         {'kind': 'scenario', 'prog': 'closure_threads', 'inp': 1,
          'tps': [{'id': 'tp0', 'kind': 'metric', 'mark': 'A', 'fire_count': '-1',
                   'metrics': [{'type': 'COUNTER', 'expr': None, 'labels': []}]}]},
+        # module-body and class-body frames: their f_locals ARE the live namespace of the module / of the class being built.
+        # (i) a line tracepoint on a line of the script body, (ii) a function called from the body with all_frame (the
+        # <module> frame is collected), (iii) lines of a class body; the host returns both namespaces afterwards
+        {'kind': 'scenario', 'prog': 'modbody', 'inp': 1,
+         'tps': [{'id': 'tp0', 'kind': 'snapshot', 'mark': 'M', 'fire_count': '-1', 'watches': ['__name__', 'ITEMS']}]},
+        {'kind': 'scenario', 'prog': 'modbody', 'inp': 2,
+         'tps': [{'id': 'tp0', 'kind': 'snapshot_log', 'mark': 'H', 'fire_count': '-1', 'frame_type': 'all_frame',
+                  'log_msg': 'k={k} of {__name__}', 'watches': ['n']}]},
+        {'kind': 'scenario', 'prog': 'modbody', 'inp': 0,
+         'tps': [{'id': 'tp0', 'kind': 'snapshot', 'mark': 'C', 'fire_count': '-1', 'frame_type': 'all_frame', 'watches': ['slots']},
+                 {'id': 'tp1', 'kind': 'snapshot', 'mark': 'D', 'fire_count': '-1', 'watches': ['__qualname__', 'locals()']},
+                 {'id': 'tp2', 'kind': 'snapshot_log', 'mark': 'N', 'fire_count': '-1', 'log_msg': 't={total}'}]},
         # all four action kinds on one line of a threaded host
         {'kind': 'scenario', 'prog': 'threads', 'inp': 1,
          'tps': [{'id': 'tp0', 'kind': 'snapshot_log', 'mark': 'A', 'fire_count': '-1', 'log_msg': 'k={k}', 'watches': ['box']},
